@@ -8,6 +8,11 @@ explicit whitespace `Text` and comments are items. It is what tree-sitter delive
     expr          : leaf | `[` items closeGap `]` | [`rec` recGap] `{` items closeGap `}`
                   | `(` items closeGap `)`            (comments and exactly one expression)
                   | expr (gap comment)* gap expr      (function application)
+                  | (`with` | `assert`) (gap comment)* gap expr (gap comment)* gap `;` (gap comment)* gap expr
+                  | expr gap operator gap expr      (binary operator)
+                  | (`!` | `-`) (gap comment)* gap expr      (unary operator)
+                  | name (gap comment)* gap `:` gap expr      (lambda with an identifier argument)
+                  | expr (gap comment)* gap `.` gap name (`.` name)* [(gap comment)* gap `or` gap expr]      (select)
     list items    : (gap comment | gap expr)*
     set items     : (gap comment | gap binding)*
     binding       : name (gap comment)* gap `=` (gap comment)* gap expr (gap comment)* gap `;`
@@ -42,6 +47,20 @@ inductive Cst where
   | paren (items : Items) (closeGap : Text)
   /-- function (gap comment)* gap argument — `apply_expression` -/
   | app (f : Cst) (cs : GC) (g : Text) (a : Cst)
+  /-- `with` c1 g1 environment c2 g2 `;` c3 g3 body — `with_expression` (`isWith`), or
+      `assert` c1 g1 condition c2 g2 `;` c3 g3 body — `assert_expression` -/
+  | kw (isWith : Bool) (c1 : GC) (g1 : Text) (head : Cst) (c2 : GC) (g2 : Text) (c3 : GC) (g3 : Text) (body : Cst)
+  /-- expression c1 g1 `.` gd a₁ `.` a₂ … — `select_expression` without `or` default; the attrpath holds
+      no whitespace (`attrs`: its segments, separated by `.`) -/
+  | sel (e : Cst) (c1 : GC) (g1 : Text) (gd : Text) (attrs : List Text)
+  /-- expression c1 g1 `.` gd attrpath c2 g2 `or` g3 default — `select_expression` with `or` default -/
+  | selOr (e : Cst) (c1 : GC) (g1 : Text) (gd : Text) (attrs : List Text) (c2 : GC) (g2 : Text) (g3 : Text) (d : Cst)
+  /-- name c1 g1 `:` c2 g2 body — `function_expression` with an identifier argument (no formals) -/
+  | lam (name : Text) (c1 : GC) (g1 : Text) (c2 : GC) (g2 : Text) (body : Cst)
+  /-- operator c g operand — `unary_expression` (`!`, `-`) -/
+  | un (op : Text) (c : GC) (g : Text) (e : Cst)
+  /-- left c1 g1 operator c2 g2 right — `binary_expression` -/
+  | bin (l : Cst) (c1 : GC) (g1 : Text) (op : Text) (c2 : GC) (g2 : Text) (r : Cst)
 inductive Items where
   | nil
   /-- gap, comment token -/
@@ -62,6 +81,15 @@ structure File where
 
 def flattenGC (cs : GC) : Text := cs.flatMap fun p => p.1 ++ p.2
 
+/-- `a₁.a₂.….aₙ` -/
+def attrText : List Text → Text
+  | [] => []
+  | [a] => a
+  | a :: rest => a ++ '.' :: attrText rest
+
+/-- the keyword token of a `kw` node -/
+def kwText (isWith : Bool) : Text := if isWith then ['w', 'i', 't', 'h'] else ['a', 's', 's', 'e', 'r', 't']
+
 mutual
 def Cst.flatten : Cst → Text
   | .leaf _ t => t
@@ -69,6 +97,14 @@ def Cst.flatten : Cst → Text
   | .set r rg its cg => (if r then ['r', 'e', 'c'] ++ rg else []) ++ '{' :: its.flatten ++ cg ++ ['}']
   | .paren its cg => '(' :: its.flatten ++ cg ++ [')']
   | .app f cs g a => f.flatten ++ flattenGC cs ++ g ++ a.flatten
+  | .kw w c1 g1 h c2 g2 c3 g3 b =>
+    kwText w ++ flattenGC c1 ++ g1 ++ h.flatten ++ flattenGC c2 ++ g2 ++ ';' :: flattenGC c3 ++ g3 ++ b.flatten
+  | .sel e c1 g1 gd attrs => e.flatten ++ flattenGC c1 ++ g1 ++ '.' :: gd ++ attrText attrs
+  | .selOr e c1 g1 gd attrs c2 g2 g3 d =>
+    e.flatten ++ flattenGC c1 ++ g1 ++ '.' :: gd ++ attrText attrs ++ flattenGC c2 ++ g2 ++ ['o', 'r'] ++ g3 ++ d.flatten
+  | .lam n c1 g1 c2 g2 b => n ++ flattenGC c1 ++ g1 ++ ':' :: flattenGC c2 ++ g2 ++ b.flatten
+  | .un op c g e => op ++ flattenGC c ++ g ++ e.flatten
+  | .bin l c1 g1 op c2 g2 r => l.flatten ++ flattenGC c1 ++ g1 ++ op ++ flattenGC c2 ++ g2 ++ r.flatten
 def Items.flatten : Items → Text
   | .nil => []
   | .cmt g t rest => g ++ t ++ rest.flatten
@@ -105,6 +141,11 @@ deriving DecidableEq, Repr
 
 def lexGC (cs : GC) : List Lex := cs.map fun p => .cmt p.2
 
+/-- the tokens of `.a₁.a₂.….aₙ` -/
+def attrLex : List Text → List Lex
+  | [] => []
+  | a :: rest => .tok ['.'] :: .tok a :: attrLex rest
+
 mutual
 def Cst.lex : Cst → List Lex
   | .leaf _ t => [.tok t]
@@ -112,6 +153,12 @@ def Cst.lex : Cst → List Lex
   | .set r _ its _ => (if r then [.tok ['r', 'e', 'c']] else []) ++ .tok ['{'] :: its.lex ++ [.tok ['}']]
   | .paren its _ => .tok ['('] :: its.lex ++ [.tok [')']]
   | .app f cs _ a => f.lex ++ lexGC cs ++ a.lex
+  | .kw w c1 _ h c2 _ c3 _ b => .tok (kwText w) :: lexGC c1 ++ h.lex ++ lexGC c2 ++ .tok [';'] :: lexGC c3 ++ b.lex
+  | .sel e c1 _ _ attrs => e.lex ++ lexGC c1 ++ attrLex attrs
+  | .selOr e c1 _ _ attrs c2 _ _ d => e.lex ++ lexGC c1 ++ attrLex attrs ++ lexGC c2 ++ .tok ['o', 'r'] :: d.lex
+  | .lam n c1 _ c2 _ b => .tok n :: lexGC c1 ++ .tok [':'] :: lexGC c2 ++ b.lex
+  | .un op c _ e => .tok op :: lexGC c ++ e.lex
+  | .bin l c1 _ op c2 _ r => l.lex ++ lexGC c1 ++ .tok op :: lexGC c2 ++ r.lex
 def Items.lex : Items → List Lex
   | .nil => []
   | .cmt _ t rest => .cmt t :: rest.lex
@@ -205,6 +252,24 @@ def gcOk : GC → Text → Bool
   | [p], next => isGap p.1 && isCommentTok p.2 && closedBy p.2 next false
   | p :: q :: rest, next => isGap p.1 && isCommentTok p.2 && closedBy p.2 q.1 false && gcOk (q :: rest) next
 
+/-- a segment of the attrpath of a select: one token (an identifier or a `"…"` string) on one line,
+    not `.` / `;` -/
+def attrSegOk (a : Text) : Bool :=
+  !a.isEmpty && !containsNL a && a != ['.'] && a != [';']
+
+/-- the argument of a simple lambda: an identifier -/
+def lamNameOk (n : Text) : Bool := !n.isEmpty && n.all isIdentChar
+
+/-- a unary operator of Nix -/
+def unOpOk (op : Text) : Bool := op == ['!'] || op == ['-']
+
+/-- the binary operators of Nix (`?` is a node kind of its own) -/
+def binOpOk (op : Text) : Bool :=
+  ["//", "++", "+", "-", "*", "/", "==", "!=", "<", "<=", ">", ">=", "&&", "||", "->"].any fun s => s.toList == op
+
+/-- the operators `_format_chained_binary` takes over when they stand on a line of their own -/
+def chainOp (op : Text) : Bool := op == ['/', '/'] || op == ['+', '+']
+
 /-- where an item sequence sits -/
 inductive Mode where
   | file | list | set | paren
@@ -230,6 +295,24 @@ def Cst.wf : Cst → Bool
   | .set r rg its cg => (r || rg.isEmpty) && isGap rg && its.wf .set cg && isGap cg
   | .paren its cg => its.wf .paren cg && its.countElems == 1 && isGap cg
   | .app f cs g a => f.wf && gcOk cs g && isGap g && a.wf
+  -- `with` / `assert`: the three inner gaps are whitespace only. (The comment paths of
+  -- `WithStatement.from_cst` / `Assertion.from_cst` are modelled, see `FromCst.lean` / `Rebuild.lean`,
+  -- and tied to the implementation — `Cst.modelled` below —, but are outside the theorems' fragment.)
+  | .kw _ c1 g1 h c2 g2 c3 g3 b =>
+    c1.isEmpty && isGap g1 && h.wf && c2.isEmpty && isGap g2 && c3.isEmpty && isGap g3 && b.wf
+  -- select: whitespace only between the expression and `.`, and between `.` and the attrpath
+  | .sel e c1 g1 gd attrs => e.wf && c1.isEmpty && isGap g1 && isGap gd && !attrs.isEmpty && attrs.all attrSegOk
+  | .selOr e c1 g1 gd attrs c2 g2 g3 d =>
+    e.wf && c1.isEmpty && isGap g1 && isGap gd && !attrs.isEmpty && attrs.all attrSegOk && c2.isEmpty && isGap g2 &&
+      isGap g3 && d.wf
+  -- `x: body`: whitespace only around the `:`
+  | .lam n c1 g1 c2 g2 b => lamNameOk n && c1.isEmpty && isGap g1 && c2.isEmpty && isGap g2 && b.wf
+  -- `!e` / `-e`: whitespace only between operator and operand
+  | .un op c g e => unOpOk op && c.isEmpty && isGap g && e.wf
+  -- binary operators: whitespace only around the operator; `//` and `++` with the operator on a line of
+  -- its own take the chain formatter `_format_chained_binary`, which is not modelled
+  | .bin l c1 g1 op c2 g2 r =>
+    l.wf && c1.isEmpty && isGap g1 && binOpOk op && !(chainOp op && containsNL g1) && c2.isEmpty && isGap g2 && r.wf
 /-- `closeGap`: the whitespace after the last item (in front of the closing token / the end of the
     file) -/
 def Items.wf : Items → Mode → Text → Bool
@@ -240,6 +323,39 @@ def Items.wf : Items → Mode → Text → Bool
   | .bind g n c1 g1 c2 g2 v c3 g3 rest, m, cg =>
     m == .set && isGap g && nameOk n && gcOk c1 g1 && isGap g1 && gcOk c2 g2 && isGap g2 && v.wf &&
       gcOk c3 g3 && isGap g3 && rest.wf m cg
+end
+
+mutual
+/-- what the MODEL covers (a superset of `wf`, the theorems' fragment): `wf` with comments allowed in
+    the inner gaps of `with` / `assert`. The driver answers `roundtrip`
+    requests on this set, so the transliterations of `WithStatement` / `Assertion` are compared with
+    the implementation also where no theorem speaks about them yet. -/
+def Cst.modelled : Cst → Bool
+  | .leaf k t => leafOk k t
+  | .list its cg => its.modelled .list cg && isGap cg
+  | .set r rg its cg => (r || rg.isEmpty) && isGap rg && its.modelled .set cg && isGap cg
+  | .paren its cg => its.modelled .paren cg && its.countElems == 1 && isGap cg
+  | .app f cs g a => f.modelled && gcOk cs g && isGap g && a.modelled
+  | .kw _ c1 g1 h c2 g2 c3 g3 b =>
+    gcOk c1 g1 && isGap g1 && h.modelled && gcOk c2 g2 && isGap g2 && gcOk c3 g3 && isGap g3 && b.modelled
+  | .sel e c1 g1 gd attrs =>
+    e.modelled && gcOk c1 g1 && isGap g1 && isGap gd && !attrs.isEmpty && attrs.all attrSegOk
+  | .selOr e c1 g1 gd attrs c2 g2 g3 d =>
+    e.modelled && gcOk c1 g1 && isGap g1 && isGap gd && !attrs.isEmpty && attrs.all attrSegOk && gcOk c2 g2 &&
+      isGap g2 && isGap g3 && d.modelled
+  | .lam n c1 g1 c2 g2 b => lamNameOk n && gcOk c1 g1 && isGap g1 && c2.isEmpty && isGap g2 && b.modelled
+  | .un op c g e => unOpOk op && gcOk c g && isGap g && e.modelled
+  | .bin l c1 g1 op c2 g2 r =>
+    l.modelled && c1.isEmpty && isGap g1 && binOpOk op && !(chainOp op && containsNL g1) && c2.isEmpty && isGap g2 &&
+      r.modelled
+def Items.modelled : Items → Mode → Text → Bool
+  | .nil, _, _ => true
+  | .cmt g t rest, m, cg =>
+    isGap g && isCommentTok t && closedBy t (rest.firstGap.getD cg) (m == .file) && rest.modelled m cg
+  | .elem g c rest, m, cg => m != .set && isGap g && c.modelled && rest.modelled m cg
+  | .bind g n c1 g1 c2 g2 v c3 g3 rest, m, cg =>
+    m == .set && isGap g && nameOk n && gcOk c1 g1 && isGap g1 && gcOk c2 g2 && isGap g2 && v.modelled &&
+      gcOk c3 g3 && isGap g3 && rest.modelled m cg
 end
 
 /-- `WF`: gaps are whitespace, comments are comment tokens of the fragment (a line comment is
@@ -255,5 +371,9 @@ def File.noLeadingWs (f : File) : Bool := f.items.firstGap == some []
 
 /-- THE FRAGMENT: the files the model covers (the driver answers `(uncovered …)` for all others) -/
 def File.covered (f : File) : Bool := f.wf && f.noLeadingWs
+
+/-- the files the model is compared with the implementation on (`roundtrip` requests) -/
+def File.modelled (f : File) : Bool :=
+  f.items.modelled .file f.endGap && f.items.countElems = 1 && isGap f.endGap && f.noLeadingWs
 
 end Nima.Frag
